@@ -17,10 +17,13 @@ def gnum(rng, nz=False):
         x = rng.choice(DY[:7] if rng.random() < 0.8 else DY)
         if not nz or x != "0": return x
 
-def gen_tree(rng, dim, depth, sparse=False, in_norm=False):
+def gen_tree(rng, dim, depth, sparse=False, in_norm=False, no_norm=False):
+    """NormalizedKernel needs k(x,x) > 0 for its base: no model-based kernel below it (the model may map a point to 0)
+    and none above it (sparse=True below MODEL also excludes NORM)"""
     leaves = ["LIN", "POLY", "MONO", "RBF"] + ([] if sparse else ["ARD"])
     comps = ["SCALED", "WSUM", "PROD"] + ([] if sparse else ["NORM", "SUBR", "MODEL"])
     if in_norm and "MODEL" in comps: comps.remove("MODEL")
+    if no_norm and "NORM" in comps: comps.remove("NORM")
     c = rng.choice(leaves) if depth <= 0 or rng.random() < 0.35 else rng.choice(comps)
     if c == "LIN": return ["LIN"]
     if c == "POLY":
@@ -30,26 +33,26 @@ def gen_tree(rng, dim, depth, sparse=False, in_norm=False):
     if c == "MONO": return ["MONO", str(rng.choice([1, 1, 2, 3]))]
     if c == "RBF": return ["RBF", rng.choice(["1/4", "1/2", "1", "2", "1/8"]), "1" if rng.random() < 0.3 else "0"]
     if c == "ARD": return ["ARD"] + [rng.choice(["1/4", "1/2", "1", "2"]) for _ in range(dim)]
-    if c == "NORM": return ["NORM"] + gen_tree(rng, dim, depth - 1, sparse, True)
-    if c == "SCALED": return ["SCALED", rng.choice(["2", "1/2", "3", "1/4"])] + gen_tree(rng, dim, depth - 1, sparse, in_norm)
+    if c == "NORM": return ["NORM"] + gen_tree(rng, dim, depth - 1, sparse, True, no_norm)
+    if c == "SCALED": return ["SCALED", rng.choice(["2", "1/2", "3", "1/4"])] + gen_tree(rng, dim, depth - 1, sparse, in_norm, no_norm)
     if c == "WSUM":
         n = rng.choice([1, 2, 2, 3, 4]); out = ["WSUM", str(n)] + [rng.choice(["0", "0", "0", "1", "-1/2", "1/4"]) for _ in range(n - 1)]
         if rng.random() < 0.5: out = ["WSUM", str(n)] + ["0"] * (n - 1)
-        for _ in range(n): out += gen_tree(rng, dim, depth - 1, sparse, in_norm)
+        for _ in range(n): out += gen_tree(rng, dim, depth - 1, sparse, in_norm, no_norm)
         return out
     if c == "PROD":
         n = rng.choice([1, 2, 2, 3]); out = ["PROD", str(n)]
-        for _ in range(n): out += gen_tree(rng, dim, depth - 1, sparse, in_norm)
+        for _ in range(n): out += gen_tree(rng, dim, depth - 1, sparse, in_norm, no_norm)
         return out
     if c == "SUBR":
         n = rng.choice([1, 2, 2, 3]); out = ["SUBR", str(n)]
         for _ in range(n):
             a = rng.randrange(dim); b = rng.randint(a + 1, dim)
-            out += [str(a), str(b)] + gen_tree(rng, b - a, depth - 1, sparse, in_norm)
+            out += [str(a), str(b)] + gen_tree(rng, b - a, depth - 1, sparse, in_norm, no_norm)
         return out
     if c == "MODEL":
         m = rng.randint(1, 3)
-        return ["MODEL", str(m)] + [rng.choice(["0", "1", "-1", "2", "1/2"]) for _ in range(m * dim)] + [rng.choice(["0", "1", "-1"]) for _ in range(m)] + gen_tree(rng, m, depth - 1, sparse, in_norm)
+        return ["MODEL", str(m)] + [rng.choice(["0", "1", "-1", "2", "1/2"]) for _ in range(m * dim)] + [rng.choice(["0", "1", "-1"]) for _ in range(m)] + gen_tree(rng, m, depth - 1, sparse, in_norm, True)
 
 def gen_points(rng, n, dim, nz, pool):
     pts = []
@@ -343,6 +346,8 @@ def load_cases(ck, gens):
 
 def main():
     ck = Check(PID)
+    for f in ([] if ck.replay else os.listdir(ck.replay_dir)):          # replays of earlier runs would be mistaken for results of this one
+        if f.startswith(("viol_", "case_")): os.remove(os.path.join(ck.replay_dir, f))
     ck.trusted = DEFAULT_TRUSTED + ["the OCaml driver parses the kernel expression and composes the extracted combinators (no arithmetic of its own); exact runs use Coq's extracted Qc operations, float runs OCaml doubles with libm sqrt/exp",
                                     "finite differences (five-point stencil, h = 2^-10) inside the harness are built from the kernels' own single evaluations"]
     ck.assumptions = ["inputs of one kernel call have equal dimension; PolynomialKernel offset >= 0, ScaledKernel factor > 0, WeightedSumKernel weights exp(.) > 0, DiscreteKernel table symmetric positive semi-definite (generated as A*A^T)",
@@ -372,7 +377,8 @@ def main():
             nmon += 1
             for chk, fld, msg in msgs:
                 mon.setdefault(chk, []).append((case_info(c)["kind"] != "V", len(c), ci, msg, fld))
-        else:
+        # failures that do not touch the compared values (parameter bookkeeping) do not excuse a disagreement
+        if all(m[0] in ("parameter-count", "parameter-derivative-reused-gradient") for m in msgs):
             diffs = compare_line(c, a[0], b[0], stats)
             if diffs: dis.append((ci, diffs))
     log("[C05] monitor+comparison done, %.1fs" % (time.time() - ck.t0))
